@@ -40,31 +40,72 @@ PROFILE_SETS = {"krumhansl_kessler": 0, "kk": 0, "ks": 0,
 # reflection of the constant tables
 
 
+def _ps13_tables_by_probing(PS):
+    """init_morph / morph_int read off compute_morph_array's behaviour (used when the two tables are
+    not literal assignments inside that function any more, e.g. moved to module level).
+    One note of chroma c whose context is itself gets morph init_morph[c]; a second note of chroma d
+    after a first note of chroma 0, with the context {0}, gets (morph_int[d] - morph_int[0] +
+    init_morph[0]) mod 7.  ps13 uses morph_int only through differences mod 7, so the table
+    normalised to morph_int[0] = 0 describes the same algorithm."""
+    import numpy as np
+
+    def onehot(c):
+        v = np.zeros(12, dtype=int)
+        v[c] = 1
+        return v
+
+    init = [int(PS.compute_morph_array(np.array([c]), np.array([onehot(c)]))[0]) % 7 for c in range(12)]
+    mint = [(int(PS.compute_morph_array(np.array([0, d]), np.array([onehot(0), onehot(0)]))[1]) - init[0]) % 7
+            for d in range(12)]
+    return init, mint
+
+
 def _ps13_tables():
     import partitura.musicanalysis.pitch_spelling as PS
 
-    src = textwrap.dedent(inspect.getsource(PS.compute_morph_array))
     found = {}
-    for node in ast.walk(ast.parse(src)):
-        if isinstance(node, ast.Assign) and len(node.targets) == 1 and isinstance(node.targets[0], ast.Name) \
-                and node.targets[0].id in ("init_morph", "morph_int"):
-            v = node.value
-            if isinstance(v, ast.Call) and v.args:
-                v = v.args[0]
-            lst = ast.literal_eval(v)
-            name = node.targets[0].id
-            if name in found:
-                raise RuntimeError("ps13 table %s assigned twice in compute_morph_array" % name)
-            found[name] = [int(x) for x in lst]
-    for name in ("init_morph", "morph_int"):
-        if name not in found or len(found[name]) != 12:
-            raise RuntimeError("cannot reflect ps13 table %s from compute_morph_array" % name)
+    try:
+        src = textwrap.dedent(inspect.getsource(PS.compute_morph_array))
+        for node in ast.walk(ast.parse(src)):
+            if isinstance(node, ast.Assign) and len(node.targets) == 1 and isinstance(node.targets[0], ast.Name) \
+                    and node.targets[0].id in ("init_morph", "morph_int"):
+                v = node.value
+                if isinstance(v, ast.Call) and v.args:
+                    v = v.args[0]
+                lst = ast.literal_eval(v)
+                name = node.targets[0].id
+                if name in found:
+                    raise RuntimeError("ps13 table %s assigned twice in compute_morph_array" % name)
+                found[name] = [int(x) for x in lst]
+        for name in ("init_morph", "morph_int"):
+            if name not in found or len(found[name]) != 12:
+                raise RuntimeError("cannot reflect ps13 table %s from compute_morph_array" % name)
+        found["tables_from"] = "ast literal in compute_morph_array"
+    except Exception as e:
+        try:
+            found["init_morph"], found["morph_int"] = _ps13_tables_by_probing(PS)
+            found["tables_from"] = "probing compute_morph_array (%s)" % str(e)[:80]
+        except Exception as e2:
+            raise RuntimeError("cannot reflect the ps13 tables: %s; probing compute_morph_array failed too: %s" % (e, e2))
     sig = inspect.signature(PS.ps13s1)
     found["k_pre"] = int(sig.parameters["K_pre"].default)
     found["k_post"] = int(sig.parameters["K_post"].default)
     found["und_chroma"] = [int(x) for x in PS.UND_CHROMA]
     found["steps"] = [str(x) for x in PS.STEPS]
     return found
+
+
+def _note_midi_table(steps):
+    """score.Note(step, octave, alter).midi_pitch as partitura computes it, on the complete domain a
+    spelling of a pitch 21..108 with at most a double accidental can fall in (315 notes)."""
+    import partitura.score as S
+
+    rows = []
+    for st in steps:
+        for al in range(-2, 3):
+            for oc in range(0, 9):
+                rows.append((st, al, oc, int(S.Note(step=st, octave=oc, alter=al).midi_pitch)))
+    return rows
 
 
 def _scaled_matrix(mat):
@@ -108,6 +149,10 @@ def gen():
     L.append("Definition ps_k_pre : Z := %s." % cz(P["k_pre"]))
     L.append("Definition ps_k_post : Z := %s." % cz(P["k_post"]))
     core.write_gen("C17_PS13", "\n".join(L) + "\n")
+    L = list(hdr)
+    L.append("Definition note_midi_tab : list (string * Z * Z * Z) := [\n  %s\n]." %
+             ";\n  ".join(ctuple([cstr(a), cz(b), cz(c), cz(d)]) for a, b, c, d in _note_midi_table(P["steps"])))
+    core.write_gen("C17_MidiTab", "\n".join(L) + "\n")
     K = _key_tables()
     L = list(hdr)
     for nm in ("kk", "cbms", "kp"):
@@ -354,9 +399,14 @@ class _Recorder:
             return self
 
         class Spy(object):
-            # a wrapper, not a subclass: VoSA.__init__ refers to the module-level name VoSA
+            # a wrapper, not a subclass: VoSA.__init__ refers to the module-level name VoSA.
+            # Observation must never disturb the call: whatever cannot be read is "not observable"
+            # (the check then uses the self-consistency form of the correspondence).
             def __init__(s, arr, *a, **k):
-                s._pv_in = [int(x) for x in arr["id"]]
+                try:
+                    s._pv_in = [int(x) for x in arr["id"]]
+                except Exception:
+                    s._pv_in = None
                 rec.mod.VoSA = real
                 try:
                     s._pv_inner = real(arr, *a, **k)
@@ -365,7 +415,11 @@ class _Recorder:
 
             def note_array(s, *a, **k):
                 out = s._pv_inner.note_array(*a, **k)
-                rec.calls.append((s._pv_in, [(int(i), int(v)) for i, v in zip(out["id"], out["voice"])]))
+                try:
+                    if s._pv_in is not None:
+                        rec.calls.append((s._pv_in, [(int(i), int(v)) for i, v in zip(out["id"], out["voice"])]))
+                except Exception:
+                    pass
                 return out
 
             def __getattr__(s, name):
@@ -482,7 +536,8 @@ def run_voices(ctx):
     if failing is None:
         return
     ctx.obligation("correspondence: estimate_voices = Model.C17_Voices.estimate_voices with the observed VoSA rows as oracle value "
-                   "(and: ids handed to VoSA = model's representatives, VoSA total on them) on %d calls" % len(terms),
+                   "(and: the ids handed to VoSA are one member of every (onset, duration) chord and nothing else - every id in "
+                   "monophonic mode - in any order; VoSA answered exactly them) on %d calls" % len(terms),
                    not failing, failing[:5])
     for i in failing[:3]:
         ctx.violation("voices: implementation and outer-layer model disagree", kept[i])
@@ -596,7 +651,9 @@ def key_oracle(rows, unit, name, names, parse_ok, variant):
         pc, mode = _name_pc_mode(r)
         tol, expect = 1e-6, ((pc + j) % 12, mode)
     by_meaning = kind == "transpose"
-    if margin is None:      # zero histogram: every correlation undefined, the first key is returned
+    if margin is None:      # zero histogram: every correlation undefined (the first key is returned)
+        if kind == "transpose":
+            return None, r      # a 24-way tie: the property fixes no tonic to be moved (counted as near-tie)
         tol = None
         expect = r
         by_meaning = False
@@ -616,7 +673,11 @@ def key_oracle(rows, unit, name, names, parse_ok, variant):
 
 def run_key(ctx, K):
     rng = ctx.rng
-    from partitura.utils.globals import VALID_KEY_PROFILES
+    try:
+        from partitura.utils.globals import VALID_KEY_PROFILES
+    except Exception:      # the list is an internal: without it, try every documented name
+        VALID_KEY_PROFILES = sorted(PROFILE_SETS)
+        ctx.count("key:VALID_KEY_PROFILES_not_importable")
 
     names = K["names"]
     parse_ok = {nm: (res is not None) for nm, res in K["parse"]}
@@ -736,25 +797,38 @@ def midi_oracle(case):
     except Exception as e:
         return "load_score_midi raised %s: %s" % (type(e).__name__, str(e)[:200]), None
     got = []
+    notes_seen = {"no_positive_voice": 0, "key_signatures": []}
     for part in S.iter_parts(sc.parts):
         for n in part.notes_tied:
-            got.append((int(n.start.t), int(n.midi_pitch)))
+            got.append((n.start.t, int(n.midi_pitch)))
         for n in part.notes:
             if n.tie_next is not None and n.tie_next.midi_pitch != n.midi_pitch:
                 return "tied notes with different pitches %d -> %d" % (n.midi_pitch, n.tie_next.midi_pitch), None
-            if n.voice is None or n.voice < 0:
-                return "note %s has voice %r" % (n.id, n.voice), None
-        if case["estimate_key"]:
-            ks = list(part.iter_all(S.KeySignature))
-            if len(ks) != 1:
-                return "estimate_key=True: part has %d key signatures" % len(ks), None
-    exp = sorted((o, p) for o, d, p, tr, ch in notes)
-    got.sort()
-    if got != exp:
-        miss = [x for x in exp if x not in got][:3]
-        extra = [x for x in got if x not in exp][:3]
-        return "imported (onset, pitch) multiset differs from the file: missing %r, unexpected %r (%d vs %d notes)" % (miss, extra, len(exp), len(got)), got
-    return None, got
+            if n.voice is None or n.voice < 1:
+                notes_seen["no_positive_voice"] += 1
+        notes_seen["key_signatures"].append(len(list(part.iter_all(S.KeySignature))))
+    case["_observed"] = notes_seen        # counted by the caller, not demanded (C17 does not state them)
+    # "contains exactly the file's pitches": the pitches sounding at the 1st, 2nd, ... distinct onset of
+    # the file are the pitches of the notes starting at the 1st, 2nd, ... distinct time of the score
+    # (the time unit of the score is not C17's business, the order of the onsets identifies the notes)
+    exp_r = _by_onset_rank((o, p) for o, d, p, tr, ch in notes)
+    got_r = _by_onset_rank(got)
+    if got_r != exp_r:
+        if len(got_r) != len(exp_r):
+            return "the file's notes start at %d distinct times, the imported score's at %d (%d vs %d notes)" % (
+                len(exp_r), len(got_r), len(notes), len(got)), got_r
+        k = next(i for i in range(len(exp_r)) if exp_r[i] != got_r[i])
+        onset = sorted({o for o, d, p, tr, ch in notes})[k]
+        return "imported pitches differ from the file: at the file's onset %d (distinct onset number %d) the file has pitches %r, the score %r" % (
+            onset, k, exp_r[k], got_r[k]), got_r
+    return None, got_r
+
+
+def _by_onset_rank(pairs):
+    d = {}
+    for t, p in pairs:
+        d.setdefault(t, []).append(int(p))
+    return [sorted(d[t]) for t in sorted(d)]
 
 
 def run_midi(ctx):
@@ -793,6 +867,11 @@ def run_midi(ctx):
         if case["estimate_voice_info"]:
             ctx.count("midi:estimate_voice_info")
         bad, got = midi_oracle(case)
+        obs = case.pop("_observed", None)
+        if obs:
+            ctx.count("midi:notes_without_positive_voice(not demanded)", obs["no_positive_voice"])
+            if case["estimate_key"] and any(k != 1 for k in obs["key_signatures"]):
+                ctx.count("midi:estimate_key_but_not_one_key_signature_per_part(not demanded)")
         if bad:
             nviol += 1
             if nviol <= 3:
@@ -804,12 +883,15 @@ def run_midi(ctx):
                     case["notes"] = core.ddmin(case["notes"], fails)
                 except Exception:
                     pass
-                ctx.violation("midi: " + (midi_oracle(case)[0] or bad), case)
+                bad2 = midi_oracle(case)[0]
+                case.pop("_observed", None)
+                ctx.violation("midi: " + (bad2 or bad), case)
             continue
         if len(notes) >= 2 and len({p % 12 for o, d, p, tr, ch in notes}) >= 2:
             ctx.nontrivial(("midi", notes, case["mode"], case["estimate_key"], case["estimate_voice_info"]))
-    ctx.obligation("importer: load_score_midi returns exactly the (onset, pitch) multiset written to the file (%d files, all six "
-                   "part/voice modes, with and without voice and key estimation)" % count, nviol == 0, "")
+    ctx.obligation("importer: the notes of load_score_midi's score carry exactly the file's pitches, onset by onset (pitch multiset at "
+                   "the k-th distinct onset, for every k; %d files, all six part/voice modes, with and without voice and key estimation)"
+                   % count, nviol == 0, "")
 
 
 # ----------------------------------------------------------------------------
@@ -821,14 +903,19 @@ def run(ctx):
                 "spelling: pitches 21..108, 15% with non-default K_pre/K_post; voices: pitches 0..127, both modes, zero-duration share 0..100%, "
                 "preceded by ALL arrays of up to 2 (thorough: 3) notes over onsets {0,1} x durations {0,1,2} x pitches {60,64}; "
                 "key: every accepted profile name in turn, one metamorphic variant (octave shifts / rescaling / transposition) per case; "
-                "midi: files built in memory with mido, 1..3 tracks, channels 0/1/9, all six part-voice modes.  "
+                "midi: files built in memory with mido from such arrays (pitches 21..108, 0..30% zero-length notes), 1..3 tracks, "
+                "channels 0/1/9, all six part-voice modes, with/without voice and key estimation; compared: the pitch multiset at the "
+                "k-th distinct onset.  "
                 "Non-trivial = spelling array with >= 2 rows that has an altered note or two rows of equal (onset, pitch); voice array with "
                 ">= 2 rows and more than one voice, a zero-duration note or a chord; key array with >= 3 pitch classes and a defined "
                 "correlation; MIDI file with >= 2 notes of >= 2 pitch classes.")
     ctx.trusted = ["Coq 8.16.1 kernel incl. vm_compute",
                    "harness/props/c17.py: generators, reflection of the ps13/key tables (ast literal of compute_morph_array's "
-                   "init_morph/morph_int, module attributes for the rest), exact scaling of float times to integers, Coq literal printing",
-                   "the VoSA search (class VoSA) is not modelled: its observed result is the oracle value of the outer-layer model",
+                   "init_morph/morph_int - or, if they are no literals there, read off compute_morph_array by probing -, module "
+                   "attributes for the rest; score.Note(step, octave, alter).midi_pitch run on 7 x 5 x 9 notes), exact scaling of float "
+                   "times to integers, Coq literal printing",
+                   "the VoSA search (class VoSA) is not modelled: its observed result is the oracle value of the outer-layer model; "
+                   "which chord member is handed to VoSA is read off the observed call",
                    "mido (building the MIDI files)"]
     ctx.assumptions = ["float onsets/durations are dyadic rationals; a case's times are multiplied by one common power of two before "
                        "they reach the integer model (order, equality and ratios preserved)",
@@ -836,7 +923,8 @@ def run(ctx):
                        "inexact) are counted and not compared (float corrcoef vs exact comparison)",
                        "numpy int overflow is out of scope"]
     P, K = gen()
-    ok, why = ctx.coq_props(expect_min=29)
+    ctx.count("reflection:ps13 tables from " + P.get("tables_from", "?"))
+    ok, why = ctx.coq_props(expect_min=36)
     nv0 = len(ctx.violations) + sum(ctx.known_hits.values())
     ctx.log("props: %s" % ("ok" if ok else "FAILED"))
     for name, fn in (("spelling", run_spelling), ("voices", run_voices), ("key", lambda c: run_key(c, K)), ("midi", run_midi)):
@@ -845,7 +933,7 @@ def run(ctx):
         ctx.log("%s stream done in %.1fs" % (name, time.time() - t0))
     if not ok and len(ctx.violations) + sum(ctx.known_hits.values()) == nv0:
         ctx.violation("proof obligations of Props/C17.v no longer check over the tables reflected from the working tree "
-                      "(ps13 tables / key profile matrices / KEYS): " + why, {"theorem_or_build": why}, no_input=True)
+                      "(ps13 tables / Note.midi_pitch table / key profile matrices / KEYS / key_name_to_fifths_mode): " + why, {"theorem_or_build": why}, no_input=True)
 
 
 def replay(obj):
@@ -872,7 +960,7 @@ def replay(obj):
         print("oracle:", bad or "property holds on this input")
     elif kind == "midi":
         bad, got = midi_oracle(r)
-        print("imported (onset, pitch):", got)
+        print("imported pitches by distinct onset:", got)
         print("oracle:", bad or "property holds on this input")
     else:
         print("nothing to re-run (no concrete input in this replay)")
